@@ -39,11 +39,19 @@ func slotsValid(cfg string) bool {
 	return true
 }
 
+// rtSliceN > 0: another property's check borrows this many controlled schedules (and nothing else) of `prop`'s stream
+var rtSliceN int
+
 func checkRuntime(c *Ctx, prop string) {
 	rng := c.RNG
 	res := c.Res
-	res.Rule = rtRule
 	n := c.scale(160, 6000)
+	if rtSliceN > 0 {
+		n = rtSliceN
+	} else {
+		res.Rule = rtRule
+	}
+	if rtSliceN == 0 {
 	if prop == "C09" || prop == "C04" {
 		rtNoWatch(c, c.scale(300, 10000))
 	}
@@ -93,7 +101,9 @@ func checkRuntime(c *Ctx, prop string) {
 			// Blank.SetSource is a blocking report: nil means "stacked, and what View returns" - also the n-th time
 			// for the same source object
 			c20BlankSameSource(c, rng.Fork(), c.scale(30, 500))
+			c20BlankWatcherInner(c, rng.Fork(), c.scale(40, 600))
 		}
+	}
 	}
 	t0 := time.Now()
 	afterBad := 0
